@@ -180,7 +180,10 @@ func (StepMonitor) OnWrite(x *Ctx, w *Write) {
 			x.Violate("C02/step/completed-without-ready", fmt.Sprintf("release completed from sub-state %s of step %d (not StepReady)", bs, ai))
 		}
 	case ai != bi:
-		if !special {
+		// a jump or a plan edit may move the cursor anywhere; a rollback / new revision justifies a restart at
+		// step one only
+		justified := requested(x.Mon, "jump", "editPlan") || (requested(x.Mon, "rollback", "release3") && ai == 1)
+		if !justified {
 			x.Violate("C02/step/index-changed-without-request", fmt.Sprintf("step cursor jumped (%d,%s) -> (%d,%s) with no jump / plan edit / rollback / new revision requested", bi, bs, ai, as))
 		}
 	case ai == bi && stateOrder[bs] < stateOrder[string(rolloutsv1beta1.CanaryStepStatePaused)] && stateOrder[as] >= stateOrder[string(rolloutsv1beta1.CanaryStepStateReady)] && !special:
